@@ -104,7 +104,12 @@ func c06Partition(b []byte, vpn bool, proto byte) {
 		off = 0
 	}
 	if len(b) < off+20 {
-		verifAssume(part == 1) // short frames: a single region
+		// short frames: a single region (the first one of the mode)
+		first := 1
+		if vpn {
+			first = 2
+		}
+		verifAssume(part == first)
 		return
 	}
 	isIP := vpn || (b[12] == 0x08 && b[13] == 0x00)
